@@ -47,6 +47,32 @@ def is_byteslike(v):
     return isinstance(v, (bytes, bytearray, SBytes))
 
 
+class FilteredSeq(SVal):
+    """Result of `(x for x in items if cond(x))` with symbolic conditions: items[i] is kept iff conds[i]."""
+
+    def __init__(self, items, conds):
+        self.items = items
+        self.conds = conds
+
+    def to_bytes(self, I, mutable=False):
+        """Exact: a fresh byte source f with f(rank_i) == items[i] whenever conds[i], length = number kept."""
+        f = I.path.fresh_fun("filtered")
+        rank = z3.IntVal(0)
+        for x, c in zip(self.items, self.conds):
+            xe = iexpr(x)
+            ce = c if not isinstance(c, bool) else z3.BoolVal(c)
+            if not I.path.implied(z3.Implies(ce, z3.And(xe >= 0, xe <= 255))):
+                # bytes() of an out-of-range element raises ValueError
+                if I.path.decide(z3.And(ce, z3.Or(xe < 0, xe > 255))):
+                    I.raise_py(ValueError, "bytes must be in range(0, 256)")
+            I.path.assume(z3.Implies(ce, f(rank) == xe))
+            rank = rank + z3.If(ce, z3.IntVal(1), z3.IntVal(0))
+        n = z3.simplify(rank)
+        if z3.is_int_value(n):
+            n = n.as_long()
+        return SBytes([CSeg(f, 0, n)], mutable)
+
+
 class SRange(SVal):
     """range() with symbolic bounds, iterated lazily."""
 
